@@ -206,6 +206,10 @@ class Avp:
             avp_vendor_id = unpacker.unpack_uint()
             avp_length -= 4
 
+        if avp_length < 0:
+            raise ConversionError(
+                f"AVP {avp_code} length field is shorter than the AVP header")
+
         avp_payload = b""
         if avp_length > 0:
             avp_payload = unpacker.unpack_fopaque(avp_length)
